@@ -100,6 +100,21 @@ def start_node(box, start, flags):
     # so the shared box.c must never be restricted itself)
     n = MetadorContainer(box.raw) if start == "container" else c[start]
     if flags:
+        if (len(start) + len(flags)) % 2 == 0:
+            # half of the start nodes are restricted only AFTER the wrapper object has already been used for navigation
+            # (restrictions must take effect on a wrapper with a history, not only on a fresh one)
+            try:
+                if hasattr(n, "keys"):
+                    for k in list(n.keys())[:2]:
+                        n[k]
+                        n.get(k)
+                    list(n.items())
+                n.attrs
+                n.meta
+                if start != "container":
+                    n.parent
+            except Exception:  # noqa  (pre-use is best effort; judged afterwards)
+                pass
         r = n.restrict(**{f: True for f in flags})
         n = r
     return n
